@@ -722,6 +722,21 @@ class Executor:
                         st.assume(f)
                     else:
                         all_ok = False
+        elif isinstance(target, (ast.Tuple, ast.List)) and any(isinstance(t, ast.Starred) for t in target.elts):
+            # a, *rest = value  (one starred target, a concrete-length sequence)
+            if not isinstance(value, (tuple, list)) or sum(isinstance(t, ast.Starred) for t in target.elts) != 1:
+                raise Unsupported("starred unpacking of a symbolic sequence")
+            k = next(i for i, t in enumerate(target.elts) if isinstance(t, ast.Starred))
+            after = len(target.elts) - k - 1
+            if len(value) < len(target.elts) - 1:
+                self.oblige(st, z3.BoolVal(False), self._name("unpack"), f"unpacking {len(value)} values into at least {len(target.elts) - 1} targets")
+                raise Unsupported("arity mismatch in unpacking")
+            vals = list(value)
+            for t, v in zip(target.elts[:k], vals[:k]):
+                self.assign(t, v, st)
+            self.assign(target.elts[k].value, vals[k:len(vals) - after], st)
+            for t, v in zip(target.elts[k + 1:], vals[len(vals) - after:] if after else []):
+                self.assign(t, v, st)
         elif isinstance(target, (ast.Tuple, ast.List)):
             vals = self.unpack(value, len(target.elts), st)
             for t, v in zip(target.elts, vals):
